@@ -520,6 +520,13 @@ def c05(case, trace):
             for trk in failed_in_op:
                 if trk in ghosts:
                     continue
+                dropped = [x for x, y in before if y == trk and x not in [z for z, _ in t["tl"]]]
+                if [x for _, x in before].count(trk) == 1 and dropped and t["current"] == dropped[0] \
+                        and not any(ok for tk, ok in t["attempts"] if tk == trk):
+                    # the refused entry has left the tracklist: it is not reported as current either
+                    yield ("failed_never_current", {"call": k, "consume": True},
+                           f"entry {dropped[0]} was refused during {k} and dropped under consume but is still reported as current", i)
+                    break
                 if [x for _, x in before].count(trk) == 1 and trk in after_trks:
                     yield ("consume_drops_refused", {"call": k, "single_entry": True},
                            f"track {trk} was refused during {k} under consume but is still in the tracklist", i)
